@@ -115,7 +115,8 @@ func RunParallel(w *World, sessions [][]PTxn, barrier bool) (acked []*EMsg, prob
 					return
 				}
 				if r.Code != 250 {
-					problem("session %d message %d: %d bytes answered %v", si, ti, len(data), r)
+					// (callers that expect refusals recognise them by this prefix)
+					problem("REFUSED %d: session %d message %d: %d bytes answered %v", r.Code, si, ti, len(data), r)
 					continue
 				}
 				var to []*mail.Address
